@@ -65,6 +65,24 @@ int main(int argc, char** argv) {
   add_unit("axisAngleMatrix", 4, 16, [](auto const* x, auto* o) { using T = TY(o); stm(o, glm::axisAngleMatrix(ldv<3, T>(x), x[3])); });
   add_unit("extractMatrixRotation", 16, 16, [](auto const* x, auto* o) { using T = TY(o); stm(o, glm::extractMatrixRotation(ldm<4, 4, T>(x))); });
 #endif
+#if CFG == 0 && IN_PART(0)
+  // decompose() of T*R*S returns components from which recompose() rebuilds the same matrix
+  add_prop("p_decompose", 10, 5e-3, 1e-7, [](auto const* x) { using T = TY(x);
+    T n = std::sqrt(x[3] * x[3] + x[4] * x[4] + x[5] * x[5] + x[6] * x[6]); if (!(n > T(0.3))) return T(-1);
+    auto q = glm::qua<T, glm::defaultp>::wxyz(x[3] / n, x[4] / n, x[5] / n, x[6] / n);
+    glm::vec<3, T, glm::defaultp> S(std::abs(x[7]) + T(0.3), std::abs(x[8]) + T(0.3), std::abs(x[9]) + T(0.3));
+    auto M = glm::translate(glm::mat<4, 4, T, glm::defaultp>(T(1)), ldv<3, T>(x)) * glm::mat4_cast(q) * glm::scale(glm::mat<4, 4, T, glm::defaultp>(T(1)), S);
+    glm::vec<3, T, glm::defaultp> sc, tr, sk; glm::vec<4, T, glm::defaultp> pe; glm::qua<T, glm::defaultp> o;
+    if (!glm::decompose(M, sc, o, tr, sk, pe)) return T(1e9);
+    auto M2 = glm::recompose(sc, o, tr, sk, pe);
+    T d = 0; for (int c = 0; c < 4; ++c) for (int r = 0; r < 4; ++r) d = std::max(d, std::abs(M[c][r] - M2[c][r])); return d; });
+  // lookAt: the rotation block is orthonormal
+  add_prop("p_lookat_orth", 9, 2e-3, 1e-9, [](auto const* x) { using T = TY(x); auto e = ldv<3, T>(x), c = ldv<3, T>(x + 3), u = ldv<3, T>(x + 6);
+    auto f = c - e; if (!(glm::length(f) > T(0.3)) || !(glm::length(u) > T(0.3))) return T(-1);
+    if (!(glm::length(glm::cross(glm::normalize(f), glm::normalize(u))) > T(0.2))) return T(-1);
+    auto M = glm::mat<3, 3, T, glm::defaultp>(glm::lookAtRH(e, c, u)); auto P = M * glm::transpose(M);
+    T d = 0; for (int a = 0; a < 3; ++a) for (int b = 0; b < 3; ++b) d = std::max(d, std::abs(P[a][b] - (a == b ? T(1) : T(0)))); return d; });
+#endif
 #if IN_PART(0)
   add_unit(nm("lookAt_cfg", {CFG}), 9, 16, [](auto const* x, auto* o) { using T = TY(o); stm(o, glm::lookAt(ldv<3, T>(x), ldv<3, T>(x + 3), ldv<3, T>(x + 6))); });
 #endif
